@@ -311,7 +311,10 @@ class P(Prop):
         if want == "skip":
             return None
         if "err" in want:
-            return None if impl_out.get("err") == want["err"] else f"expected failure {want['err']}, got {str(impl_out)[:200]}"
+            # a listed keep-all group without any evidence peptide / an empty group: the property does not decide this
+            # input (the pinned code fails loudly, which the model reproduces and the correspondence compares); the
+            # oracle does not demand the failure
+            return None
         if "err" in impl_out:
             return f"report failed with {impl_out['err']} although every listed group has evidence"
         rows = impl_out["rows"]
